@@ -184,8 +184,8 @@ CLAIMED = {
          "callback runs at nesting depth <= MaxCallbackDispatch + 1, and after every script line the depth is 0 and "
          "IO.Dispatched is back where the line found it (invariant over the work-list machine: stack = counted head ++ "
          "callbacks on the stack with at most one uncounted ++ poller work). PARTIAL: regular files are outside the "
-         "theorem - at the limit their deferral fails in /repo (known finding C14-regular-file-deferral); listener, packet "
-         "and multicast copies of the logic are not modelled. The implementation is compared with the model on chains "
+         "theorem - at the limit their deferral fails in /repo (known finding C14-regular-file-deferral); the listener's copy "
+         "of the logic is modelled (accept chains), the packet conn and multicast peer copies are not. The implementation is compared with the model on chains "
          "over sockets, FIFOs and regular files (depth of every callback, Dispatched after every line, results of the "
          "deferred operations)."),
    note="Trusted: Coq kernel, extraction, harness (nesting counter in the driver), kernel environment model. The theorem excludes runs that exhaust the model's fuel; the run reports fuel exhaustion as a mismatch.",
